@@ -194,7 +194,7 @@ where
                     .parse_next(input)
             }
             Some('(') if lot.note.is_none() => {
-                let note = paren(take_till(1.., ['(', ')', '@'])).parse_next(input)?;
+                let note = paren(take_till(1.., ['(', ')', '@', '\r', '\n'])).parse_next(input)?;
                 lot.note = Some(note.into());
             }
             Some('(') => {
